@@ -64,15 +64,18 @@ def key(s):
         s.endPosition.query.position
 
 
-@core.guarded(lambda rpos, qpos, maxd, rev, pk, *a: dict(reference=rpos, query=qpos, maxDistance=maxd, reverse=rev, peaks=pk))
-def check_case(rpos, qpos, maxd, rev, pk, acc, aligner=None):
-    al = aligner or make_aligner(maxd, 100, 1, -25, 100, 120)
+SCORING = [(100, 1, -25, 100, 120), (100, 1, -25, 60, 120)]     # the second lets one-pair off-diagonal segments exist
+
+
+@core.guarded(lambda rpos, qpos, maxd, rev, pk, acc=None, aligner=None, scoring=0: dict(reference=rpos, query=qpos, maxDistance=maxd, reverse=rev, peaks=pk, scoring=scoring))
+def check_case(rpos, qpos, maxd, rev, pk, acc, aligner=None, scoring=0):
+    al = aligner or make_aligner(maxd, *SCORING[scoring])
     ref = OpticalMap(1, rpos[-1] + 20, rpos)
     q = OpticalMap(2, qpos[-1] + 1, qpos)
     segs = [s for p in pk for s in al.getSegments(rev, Peak(p, 10.), q, ref)]
     ne = [s for s in segs if not s.empty]
     found = []
-    case = dict(reference=rpos, query=qpos, maxDistance=maxd, reverse=rev, peaks=pk)
+    case = dict(reference=rpos, query=qpos, maxDistance=maxd, reverse=rev, peaks=pk, scoring=scoring)
     sig = {'strand': '-' if rev else '+'}
 
     def bad(sym, detail=''):
@@ -134,7 +137,7 @@ def check_case(rpos, qpos, maxd, rev, pk, acc, aligner=None):
         acc.transitions += len(pk) * 3 + 1 + nsteps
         acc.state((rev, tuple(tuple((p.reference.siteId, p.query.siteId) for p in prs(o)) for o in outne)))
         if len(ne) >= 2 and trimmed:
-            acc.nontriv((tuple(rpos), tuple(qpos), maxd, rev, tuple(pk)))
+            acc.nontriv((tuple(rpos), tuple(qpos), maxd, rev, tuple(pk), scoring))
         acc.classes['segments-in=%d' % min(len(ne), 5)] += 1
         if trimmed:
             acc.classes['trimmed-or-dropped'] += 1
@@ -151,17 +154,18 @@ class Ladders(core.Layer):
         self.name, self.optional = name, optional
         self.worlds = world_list
         self.kmax = kmax
-        self.bounds = dict(worlds=len(world_list), maxDistance=[4, 6], ladder_sizes=[2, kmax], strides=[1, 2, 3],
+        self.bounds = dict(worlds=len(world_list), maxDistance=[4, 6], scoring_sp_dp_su_ms_bs=[list(x) for x in SCORING], ladder_sizes=[2, kmax], strides=[1, 2, 3],
                            strand_variants=['+ q', '- mirror(q)', '- q'])
         self.rule = '%d lattice worlds x 2 maxDistance x 3 strand variants x all peak ladders of size 2..%d' % (len(world_list), kmax)
 
     def nblocks(self):
-        return len(self.worlds) * 2
+        return len(self.worlds) * 4
 
     def run_block(self, b, acc):
-        name, rpos, qpos = self.worlds[b // 2]
+        name, rpos, qpos = self.worlds[b // 4]
         maxd = (4, 6)[b % 2]
-        al = make_aligner(maxd, 100, 1, -25, 100, 120)
+        sc = (b // 2) % 2
+        al = make_aligner(maxd, *SCORING[sc])
         lo = -qpos[-1] // 2 // 5 * 5 - 10
         grid = list(range(lo, rpos[-1] + 10, 5))
         for k in range(2, self.kmax + 1):
@@ -175,10 +179,10 @@ class Ladders(core.Layer):
                     pk = [grid[i] for i in idx]
                     for rev, qq in ((False, qpos), (True, mirror(qpos)), (True, qpos)):
                         acc.seq += 1
-                        check_case(rpos, qq, maxd, rev, pk, acc, al)
+                        check_case(rpos, qq, maxd, rev, pk, acc, al, sc)
 
     def replay(self, case):
-        return check_case(case['reference'], case['query'], case['maxDistance'], case['reverse'], case['peaks'], None)
+        return check_case(case['reference'], case['query'], case['maxDistance'], case['reverse'], case['peaks'], None, None, case.get('scoring', 0))
 
 
 def layers(tier, seed):
